@@ -59,6 +59,10 @@ Inductive covop : cop -> nat -> bool -> (vec -> vec) -> Prop :=
     (forall u w, dot n u (binv w) = dot (l_m T bun) (binvadj u) w) -> zero_pres binv ->
     covop cheese (l_m T bun) true Cch ->
     covop (CSand T bun cheese) n true (fun v => binv (Cch (binvadj v)))
+| cov_emb o m n emb embadj C :
+    (forall u w, dot n u (emb w) = dot m (embadj u) w) -> zero_pres emb ->
+    covop o m false C ->
+    covop (CEmb T o m emb) n false (fun v => emb (C (embadj v)))
 | cov_sum ops n Cs :
     covops ops n Cs ->
     covop (CSum T ops) n false (fun v j => fold_right (fun C acc => C v j + acc) 0 Cs)
@@ -197,6 +201,13 @@ Proof.
     + intros xi j. apply Hz. apply HI.
     + intros b i j Hb'. apply Hz. intros j'. apply HR. exact Hb'.
     + apply (cov_linear_image T t0 t1 tadd tmul topp RT N k nb (l_m T bun) n S Cch binv binvadj Hadj HC).
+  - (* embedded summand *)
+    intros o m n emb embadj C Hadj Hz _ IH k. destruct (IH k) as (S & I & nb & Hd & HI & HR & HC).
+    exists (fun xi => emb (S xi)), (fun xi => emb (I xi)), nb. repeat split.
+    + intros xi. cbn [Model.draw]. rewrite Hd. reflexivity.
+    + intros xi j. apply Hz. apply HI.
+    + intros b i j Hb'. apply Hz. intros j'. apply HR. exact Hb'.
+    + apply (cov_linear_image T t0 t1 tadd tmul topp RT N k nb m n S C emb embadj Hadj HC).
   - (* sum *)
     intros ops n Cs Hc IH k.
     assert (H0 : is_cov N k 0 n (fun (_ : noise) => vzero T t0) (fun _ _ => 0)).
